@@ -70,6 +70,10 @@ class C20(Check):
         for K in ((2, 3) if tier == 'quick' else (2, 3, 4)):
             cfgs.append(Config('donor_budget_K%d' % K, self.donor_budget,
                                {'K': K, 'Pmax': 6 if tier == 'quick' else 8, 'mmax': 3}, split=3, witness_every=7))
+        # the minimum cluster size handed over as an unsigned NumPy integer scalar
+        cfgs.append(Config('donor_budget_uint8_K2', self.donor_budget,
+                           {'K': 2, 'Pmax': 6 if tier == 'quick' else 8, 'mmax': 3, 'm_form': 'np.uint8'}, split=3,
+                           witness_every=7))
         cfgs.append(Config('wrong_input', self.wrong_input, {}))
         return cfgs
 
@@ -217,7 +221,7 @@ class C20(Check):
                 res is None and raised is not None and 'donor' in str(raised).lower())
         c.prove('pool_released_when_call_raises', len(ml.pools) == 1 and ml.pools[0].released)
 
-    def donor_budget(self, c, K, Pmax, mmax):
+    def donor_budget(self, c, K, Pmax, mmax, m_form='int'):
         """Round 0 ends with an arbitrary size vector; round 1 starts with the REAL repopulation and the
         REAL statistics step.  Independent oracle: a cluster of s >= 2m points can serve s//m - 1 refills,
         so the call must raise the donor RuntimeError iff the refills on offer are fewer than the clusters
@@ -235,7 +239,8 @@ class C20(Check):
         offered = sum(sz // m - 1 for sz in sizes if sz >= 2 * m)
         must_raise = offered < len(needy)
         blocks = [k for k in range(K) for _ in range(sizes[k])]
-        c.notes.update({'kind': 'donor_budget', 'K': K, 'm': m, 'sizes': sizes, 'joint': joint})
+        c.notes.update({'kind': 'donor_budget', 'K': K, 'm': m, 'sizes': sizes, 'joint': joint, 'm_form': m_form})
+        m_given = core.SymInt(z3.IntVal(m), 'np.uint8') if m_form == 'np.uint8' else m
         data = np.zeros((P, 1))
         ml = MainLoop(Rp, c, K, 1, modes={'initial': 'summary', 'repopulate': 'real', 'statistics': 'real'},
                       label_hook=lambda r, T: list(blocks) if r == 0 else [(i + r) % K for i in range(T)])
@@ -247,7 +252,7 @@ class C20(Check):
         try:
             with ml:
                 try:
-                    kw = dict(window_size=1, num_clusters=K, iteration_limit=2, min_cluster_size=m,
+                    kw = dict(window_size=1, num_clusters=K, iteration_limit=2, min_cluster_size=m_given,
                               sparsity_weight=0.1, label_switching_cost=1.0, biased_covariance=True)
                     if joint:
                         cut = max(1, P // 2)
